@@ -15,6 +15,7 @@ class Other { public constructor() -> Other = default; }
 static class Util { public static int n = 0; public static function twice(int a) -> int { return a * 2; } }
 abstract class Shape { public constructor() -> Shape = default; public virtual function area() -> int; }
 class Square extends Shape { public constructor() -> Square = default; public override function area() -> int { return 4; } }
+function takesArr(int[] a) -> int { return 1; }
 function takesInt(int a) -> int { return a; }
 function takesLong(long a) -> long { return a; }
 function takesString(string a) -> string { return a; }
@@ -22,7 +23,7 @@ function takesBase(Base a) -> int { return a.pub; }
 function takesFloat(float a) -> float { return a; }
 function nothing() -> void { }
 function mkArr() -> int[] { int[] a = {1, 2}; return a; }
-class Vm { public constructor() -> Vm = default; public function go() -> void { } }
+class Vm { public constructor() -> Vm = default; public function go() -> void { } public function arr(int[] a) -> int { return 2; } }
 """
 
 # statement contexts: %s is replaced by a statement sequence; every context is a complete program (after PRELUDE)
@@ -162,6 +163,9 @@ def cases():
         ("null-primitive-assign", "int z = 1; z = null;", "Base z = new Base(); z = null;"),
         ("null-primitive-argument", "takesInt(null);", "takesBase(null);"),
         ("null-array-init", "int[] za = null;", "int[] za = {1};"),
+        ("null-array-argument", "echo(takesArr(null));", "int[] za = {1}; echo(takesArr(za));"),
+        ("null-array-argument-method", "Vm vm = new Vm(); echo(vm.arr(null));", "Vm vm = new Vm(); int[] za = {1}; echo(vm.arr(za));"),
+        ("null-array-assign", "int[] za = {1}; za = null;", "int[] za = {1}; za = {2};"),
         ("null-in-primitive-array-literal", "int[] za = {null};", "int[] za = {1};"),
         ("null-compare-primitive", "int z = 1; if (z == null) { echo(1); }", "Base z = null; if (z == null) { echo(1); }"),
         ("condition-not-boolean", "int z = 1; if (z) { echo(1); }", "int z = 1; if (z == 1) { echo(1); }"),
